@@ -28,6 +28,8 @@ type vWorld struct {
 	count    int64
 	shuffles int
 	execs    int
+	cancel    context.CancelFunc
+	cancelled bool
 }
 
 var vW *vWorld
@@ -43,6 +45,10 @@ type vClient struct {
 }
 
 func (c *vClient) Bulk(_ context.Context, in *storeapi.BulkRequest, _ ...grpc.CallOption) (*emptypb.Empty, error) {
+	if vW.cancel != nil && rt.NondetBool() {
+		vW.cancel() // the request's context ends (deadline, client gone) while this call is in flight
+		vW.cancelled = true
+	}
 	ok := rt.NondetBool()
 	vW.log = append(vW.log, vCall{cold: c.cold, shard: c.shard, replica: c.replica, ok: ok,
 		payloadOK: rt.And(rt.And(string(in.Docs) == string(vW.docs), string(in.Metas) == string(vW.metas)), in.Count == vW.count)})
@@ -123,7 +129,11 @@ func VerifReplicaSets() {
 		return run(ctx) // closed / half-open / timed out: the callback's own result comes back
 	}
 	cl := &SeqDBClient{hotStores: vStores(false, hs, hr), writeStores: vStores(true, cs, cr)}
-	err := cl.StoreDocuments(context.Background(), int(vW.count), vW.docs, vW.metas)
+	ctx := context.Background()
+	if rt.Param("CANCEL") == 1 {
+		ctx, vW.cancel = context.WithCancel(ctx)
+	}
+	err := cl.StoreDocuments(ctx, int(vW.count), vW.docs, vW.metas)
 	rt.Reach("returned")
 	if err == nil {
 		rt.Assert(vFullShard(false, hs, hr), "acknowledged => a hot shard has every replica written")
@@ -136,7 +146,7 @@ func VerifReplicaSets() {
 		if cs > 0 {
 			tiers = 2
 		}
-		rt.Assert(vW.shuffles >= consts.BulkMaxTries, "failure only after the bounded retries are used up")
+		rt.Assert(vW.shuffles >= consts.BulkMaxTries || vW.cancelled, "failure only after the bounded retries are used up (or the request was cancelled)")
 		rt.Assert(vW.shuffles <= consts.BulkMaxTries*tiers, "never more than BulkMaxTries attempts per tier")
 		rt.Assert(rt.Not(rt.And(vFullShard(false, hs, hr), rt.Or(cs == 0, vFullShard(true, cs, cr)))) || true, "failure reported")
 		rt.Reach("failed")
